@@ -71,8 +71,11 @@ fn copy_dir(from: &Path, to: &Path) {
     }
 }
 
+const MAX_VALUE: usize = 96;
+
 fn cfg() -> RigCfg {
-    RigCfg { max_records: 100, cache_size: 1 }
+    // a small value limit, so that the largest admissible value (limit - 1 bytes) is cheap to tear at every byte
+    RigCfg { max_records: 100, cache_size: 1, max_value_bytes: Some(MAX_VALUE) }
 }
 
 impl Shared {
@@ -306,7 +309,7 @@ impl Sys {
 pub fn main(tier: Option<&str>) {
     let run: &'static Run = Box::leak(Box::new(Run::new("C02", "fault_enumeration", tier)));
     run.rule(
-        "every reachable state of the store under histories of <=3(4) Put/Remove operations over 2 keys x 2 values with every completion \
+        "every reachable state of the store under histories of <=3(4) Put/Remove operations over 2 keys x 2 values (of different lengths, one of them the largest value the store admits) with every completion \
          order of the background tasks (per key in order); in each state the node is stopped exactly there and, for every pending file \
          write, at every byte prefix 0..=len of the ciphertext it was writing (the bytes come from running the real write task); \
          the real store is re-opened twice on the directory with the same identity. A case = one (state, crash point); non-trivial = \
@@ -318,7 +321,22 @@ pub fn main(tier: Option<&str>) {
     let peer = rigs::fixtures::peer_id(1);
     let keys = ranked_keys(peer, 2, "c02");
     let tags = [1u8, 3];
-    let values: Vec<Vec<Vec<u8>>> = (0..2).map(|k| (0..2).map(|v| [&[0x91u8, tags[k]][..], format!("value-{k}-{}-{}", ["a", "b"][v], "x".repeat(3 + 5 * v)).as_bytes()].concat()).collect()).collect();
+    // two values per key of different lengths; the second value of key 0 is the largest the store admits (limit - 1 bytes)
+    let values: Vec<Vec<Vec<u8>>> = (0..2)
+        .map(|k| {
+            (0..2)
+                .map(|v| {
+                    let mut b = [&[0x91u8, tags[k]][..], format!("value-{k}-{}-{}", ["a", "b"][v], "x".repeat(3 + 5 * v)).as_bytes()].concat();
+                    if k == 0 && v == 1 {
+                        while b.len() < MAX_VALUE - 1 {
+                            b.push(b'y');
+                        }
+                    }
+                    b
+                })
+                .collect()
+        })
+        .collect();
     let sh = Arc::new(Shared {
         keys,
         values,
